@@ -209,8 +209,36 @@ def same_index(a, b):
     return None
 
 
+class _Memo:
+    """memoising wrapper of a list element function: clauses are rebuilt many times over the same index terms (bound variables
+    are named by nesting depth), and the element functions of results are closures over those of their operands (without the
+    memo the same element is recomputed exponentially often)"""
+    __slots__ = ('f', 'memo')
+
+    def __init__(self, f):
+        self.f, self.memo = f, {}
+
+    def __call__(self, j):
+        j = zi(j)
+        k = j.get_id()
+        hit = self.memo.get(k)
+        if hit is not None and hit[0].eq(j):
+            return hit[1]
+        v = self.f(j)
+        self.memo[k] = (j, v)
+        return v
+
+
 class SList:
     """Python list.  `fn` maps an index term (already normalised to [0, len)) to the element."""
+
+    @property
+    def fn(self):
+        return self._fn
+
+    @fn.setter
+    def fn(self, f):
+        self._fn = f if (f is None or isinstance(f, _Memo)) else _Memo(f)
 
     def __init__(self, ref, length, fn=None, items=None, kind='any'):
         self.ref = zi(ref)
@@ -248,6 +276,8 @@ class SList:
             for k in range(len(self.items) - 2, -1, -1):
                 res = val_ite(zi(idx) == k, self.items[k], res)
             return res
+        # memoised per element function: clauses are rebuilt many times over the same index terms (bound variables are named by
+        # nesting depth), and element functions of results are closures over the element functions of their operands
         return self.fn(zi(idx))
 
     def to_fn(self):
